@@ -9,7 +9,7 @@ from vlib import ToolError, log
 SPEC_MC = "merkle/BinaryMerkle_MC.tla"
 SPEC_TR = "merkle/BinaryMerkle_Trace.tla"
 
-PARTS = {"C09": "dense", "C10": "verify,dense,hist", "C11": "hist"}   # C10: proofs must also verify on trees with a reset / reload history
+PARTS = {"C09": "dense,hist", "C10": "verify,dense,hist", "C11": "hist"}   # C10: proofs must also verify on trees with a reset / reload history
 RULES = {
     "C09": "events = every Push/Root/RootOf of 3 implementations in lock-step for every count 1..N plus one-shot helpers at "
            "boundary counts; distinct = distinct (implementation, leaf count) pairs whose root was compared with the RFC 6962 "
